@@ -323,6 +323,39 @@ theorem setPos_step (Q : Nat → Prop) (f0 : Forest) (hcl : ChildClosed f0 Q) :
       rw [hf] at hc
       exact ⟨(hcl x c hq hc).2, (hcl x c hq hc).1⟩
 
+theorem setOri_step (Q : Nat → Prop) (s : AForest) (hw : WF s) (hcl : ChildClosed s.f Q) (x : Nat) (hq : Q x)
+    (hx : x < s.f.n) (inp : List ARot) : Step (PathP Q) (fun _ => True) s (s.setOri x inp) := by
+  unfold setOri
+  simp only
+  have h1 := (setFresh_spec s x .ori (.rots inp) hw).1
+  have hP : ∀ (sl : Slot), (sl = .pos ∨ sl = .ori) → ∀ j tl, PathP Q j tl → ¬ (j = x ∧ tl = sl) := by
+    rintro sl hsl j tl (h | h) ⟨rfl, rfl⟩
+    · exact h hq
+    · rcases hsl with rfl | rfl
+      · exact h.1 rfl
+      · exact h.2 rfl
+  have h12 : ∀ (b : Bool), Step (PathP Q) (fun _ => True) s
+      (if b then (s.setFresh x .ori (.rots inp)).setFresh x .pos (.vecs (padSlice inp.length (s.posOf x)))
+       else (s.setFresh x .ori (.rots inp)).write x .pos (.vecs (padSlice inp.length (s.posOf x)))) := by
+    intro b
+    cases b
+    · have h2 := (write_spec _ x .pos (.vecs (padSlice inp.length (s.posOf x))) h1.wf (by rw [h1.f_eq]; exact hx)).1
+      exact (h1.mono (hP _ (Or.inr rfl)) (fun _ h => h)).trans (h2.mono (hP _ (Or.inl rfl)) (fun _ h => h))
+    · have h2 := (setFresh_spec _ x .pos (.vecs (padSlice inp.length (s.posOf x))) h1.wf).1
+      exact (h1.mono (hP _ (Or.inr rfl)) (fun _ h => h)).trans (h2.mono (hP _ (Or.inl rfl)) (fun _ h => h))
+  have h12' := h12 (decide ((s.posOf x).length < inp.length))
+  simp only [decide_eq_true_eq] at h12'
+  refine h12'.trans ?_
+  refine foldl_step Q s.f _ ?_ _ _ h12'.f_eq h12'.wf ?_
+  · intro t c htf hwt hc hqc
+    have a := setPos_step Q s.f hcl (t.f.n + 1) t c (padSlice (padSlice inp.length (s.posOf x)).length (t.posOf c))
+      htf hwt hqc hc
+    have hf2 : (setPos (t.f.n + 1) t c (padSlice (padSlice inp.length (s.posOf x)).length (t.posOf c))).f = s.f :=
+      a.f_eq.trans htf
+    exact a.trans (rotate_step _ Q a.wf (by rw [hf2]; exact hcl) c hqc (by rw [hf2]; exact hc) _ _ _)
+  · intro c hc
+    exact ⟨(hcl x c hq hc).2, (hcl x c hq hc).1⟩
+
 /-! ### style -/
 
 theorem SData.update_empty (d : SData) : d.update SData.empty = d := by
@@ -565,27 +598,42 @@ theorem applyOv_step (s : AForest) (o : Nat) (hi : s.f.Inv) (ha : s.f.Acyclic) (
     · exact Step.refl _ _ t hwt
     · exact (setPos_step (NewQ s o) (s.f.copy o) (newQ_closed s o hi ha) _ t s.f.n p ht hwt (root_new s o)
         hroot).mono (fun j tl h => h.2) (fun _ _ => trivial)
+  | ori r =>
+    simp only [applyOv]
+    split
+    · exact Step.refl _ _ t hwt
+    · exact (setOri_step (NewQ s o) t hwt (by rw [ht]; exact newQ_closed s o hi ha) s.f.n (root_new s o)
+        (by rw [ht]; exact hroot) _).mono (fun j tl h => h.2) (fun _ _ => trivial)
   | arr sl v =>
     simp only [applyOv]
     split
     · exact (setFresh_spec t s.f.n sl (.ints v) hwt).1.mono (fun j tl h hh => h.1 hh.1) (fun _ _ => trivial)
     · exact Step.refl _ _ t hwt
   | scal k v =>
-    exact (setMeta_spec t s.f.n _ _ hwt).1.mono (fun _ _ _ => trivial) (fun _ h => h)
+    simp only [applyOv]
+    split
+    · exact (setMeta_spec t s.f.n _ _ hwt).1.mono (fun _ _ _ => trivial) (fun _ h => h)
+    · exact Step.refl _ _ t hwt
   | label l => exact Step.refl _ _ t hwt
   | sprop k v => exact Step.refl _ _ t hwt
 
-/-- keyword arguments other than `position` touch the copied object only -/
-theorem applyOv_step_nopos (s : AForest) (t : AForest) (hwt : WF t) (ov : Ov) (hnp : ∀ p, ov ≠ .pos p) :
+/-- keyword arguments other than `position` / `orientation` touch the copied object only -/
+theorem applyOv_step_nopos (s : AForest) (t : AForest) (hwt : WF t) (ov : Ov) (hnp : ∀ p, ov ≠ .pos p)
+    (hno : ∀ r, ov ≠ .ori r) :
     Step (fun j _ => j ≠ s.f.n) (· ≠ s.f.n) t (applyOv t s.f.n ov) := by
   cases ov with
   | pos p => exact absurd rfl (hnp p)
+  | ori r => exact absurd rfl (hno r)
   | arr sl v =>
     simp only [applyOv]
     split
     · exact (setFresh_spec t s.f.n sl (.ints v) hwt).1.mono (fun j tl h hh => h hh.1) (fun _ _ => trivial)
     · exact Step.refl _ _ t hwt
-  | scal k v => exact (setMeta_spec t s.f.n _ _ hwt).1.mono (fun _ _ _ => trivial) (fun _ h => h)
+  | scal k v =>
+    simp only [applyOv]
+    split
+    · exact (setMeta_spec t s.f.n _ _ hwt).1.mono (fun _ _ _ => trivial) (fun _ h => h)
+    · exact Step.refl _ _ t hwt
   | label l => exact Step.refl _ _ t hwt
   | sprop k v => exact Step.refl _ _ t hwt
 
@@ -976,11 +1024,11 @@ theorem copyKw_phaseB (s : AForest) (o : Nat) (kw : List Ov) (hw : WF s) (hi : s
 
 /-- without a `position` keyword the keyword part writes to the copied object only -/
 theorem copyKw_phaseB_nopos (s : AForest) (o : Nat) (kw : List Ov) (hw : WF s) (ho : o < s.f.n)
-    (hnp : ∀ ov ∈ kw, ∀ p, ov ≠ .pos p) :
+    (hnp : ∀ ov ∈ kw, (∀ p, ov ≠ .pos p) ∧ (∀ r, ov ≠ .ori r)) :
     Step (fun j _ => j ≠ s.f.n) (· ≠ s.f.n) (labelStep s (s.copy0 o) o) (s.copyKw o kw) := by
   have hA := (labelStep_spec s o hw ho).1
   have hB := foldl_ov_step (P := fun j _ => j ≠ s.f.n) (M := (· ≠ s.f.n)) (s.f.copy o) s.f.n kw _ hA.f_eq hA.wf
-    (fun u ov hov _ hwu => applyOv_step_nopos s u hwu ov (hnp ov hov))
+    (fun u ov hov _ hwu => applyOv_step_nopos s u hwu ov (hnp ov hov).1 (hnp ov hov).2)
   unfold copyKw
   simp only
   split
@@ -1117,9 +1165,9 @@ theorem copyKw_sep {P} (s : AForest) (hs : Sep P s) (o : Nat) (kw : List Ov) (ho
     intro j hj
     exact C18aux.copy_old s.f o j (hlt j hj)
 
-/-- one operation that names no object of `P` -/
-theorem step_sep {P} (s : AForest) (hs : Sep P s) (op : AOp) (hm : ∀ i ∈ mentions op, ¬ P i) :
-    Sep P (s.step op).1 ∧ Same P s (s.step op).1 := by
+/-- one operation other than `copy` that names no object of `P` -/
+theorem stepBase_sep {P} (s : AForest) (hs : Sep P s) (op : AOp) (hm : ∀ i ∈ mentions op, ¬ P i) :
+    Sep P (s.stepBase op).1 ∧ Same P s (s.stepBase op).1 := by
   have hnn : ∀ j, P j → ¬ ¬ P j := fun _ h hn => hn h
   cases op with
   | tree op =>
@@ -1127,7 +1175,7 @@ theorem step_sep {P} (s : AForest) (hs : Sep P s) (op : AOp) (hm : ∀ i ∈ men
     obtain ⟨fk, cl⟩ := step_fkeeps s.f P hs.inv hs.closed hs.lt op hm
     have hinv := step_inv s.f op hs.inv
     have hac := step_acyclic s.f op hs.inv hs.acyc
-    simp only [step]
+    simp only [stepBase]
     split
     · rename_i hn
       obtain ⟨w, hf, hk⟩ := plus_init_spec s (s.f.step op).1 hs.wf hn
@@ -1166,7 +1214,7 @@ theorem step_sep {P} (s : AForest) (hs : Sep P s) (op : AOp) (hm : ∀ i ∈ men
         exact ⟨b1, hbase.2.trans b2⟩
   | move x inp start =>
     have hx := hm x (by simp [mentions])
-    simp only [step]
+    simp only [stepBase]
     split
     · rename_i hlt
       exact sep_of_step hs (move_step s _ hs.wf (notP_closed hs) x hx hlt inp start)
@@ -1174,7 +1222,7 @@ theorem step_sep {P} (s : AForest) (hs : Sep P s) (op : AOp) (hm : ∀ i ∈ men
     · exact ⟨hs, Same.refl P s⟩
   | rotate x rot anchor start =>
     have hx := hm x (by simp [mentions])
-    simp only [step]
+    simp only [stepBase]
     split
     · rename_i hlt
       exact sep_of_step hs (rotate_step s _ hs.wf (notP_closed hs) x hx hlt rot anchor start)
@@ -1182,29 +1230,38 @@ theorem step_sep {P} (s : AForest) (hs : Sep P s) (op : AOp) (hm : ∀ i ∈ men
     · exact ⟨hs, Same.refl P s⟩
   | setPos x p =>
     have hx := hm x (by simp [mentions])
-    simp only [step]
+    simp only [stepBase]
     split
     · rename_i hlt
       simp only [Bool.and_eq_true, decide_eq_true_eq] at hlt
       exact sep_of_step hs (setPos_step _ s.f (notP_closed hs) _ s x p rfl hs.wf hx hlt.1)
         (fun j tl hj => Or.inl (hnn j hj)) (fun _ _ => trivial)
     · exact ⟨hs, Same.refl P s⟩
+  | setOri x r =>
+    have hx := hm x (by simp [mentions])
+    simp only [stepBase]
+    split
+    · rename_i hlt
+      simp only [Bool.and_eq_true, decide_eq_true_eq] at hlt
+      exact sep_of_step hs (setOri_step _ s hs.wf (notP_closed hs) x hx hlt.1 _)
+        (fun j tl hj => Or.inl (hnn j hj)) (fun _ _ => trivial)
+    · exact ⟨hs, Same.refl P s⟩
   | setArr x sl v =>
     have hx := hm x (by simp [mentions])
-    simp only [step]
+    simp only [stepBase]
     split
     · exact sep_of_step hs (setFresh_spec s x sl (.ints v) hs.wf).1
         (fun j tl hj h => hx (h.1 ▸ hj)) (fun _ _ => trivial)
     · exact ⟨hs, Same.refl P s⟩
   | setScal x k v =>
     have hx := hm x (by simp [mentions])
-    simp only [step]
+    simp only [stepBase]
     split
     · exact sep_of_step hs (setMeta_spec s x _ _ hs.wf).1 (fun _ _ _ => trivial) (fun j hj h => hx (h ▸ hj))
     · exact ⟨hs, Same.refl P s⟩
   | setLabel x l =>
     have hx := hm x (by simp [mentions])
-    simp only [step]
+    simp only [stepBase]
     split
     · rename_i hlt
       dsimp only
@@ -1213,7 +1270,7 @@ theorem step_sep {P} (s : AForest) (hs : Sep P s) (op : AOp) (hm : ∀ i ∈ men
     · exact ⟨hs, Same.refl P s⟩
   | setProp x k v =>
     have hx := hm x (by simp [mentions])
-    simp only [step]
+    simp only [stepBase]
     split
     · rename_i hlt
       dsimp only
@@ -1222,18 +1279,86 @@ theorem step_sep {P} (s : AForest) (hs : Sep P s) (op : AOp) (hm : ∀ i ∈ men
     · exact ⟨hs, Same.refl P s⟩
   | touchStyle x =>
     have hx := hm x (by simp [mentions])
-    simp only [step]
+    simp only [stepBase]
     split
     · rename_i hlt
       exact sep_of_step (P' := StyleP x) (M' := (· ≠ x)) hs (realise_spec s x hs.wf hlt).1
         (fun j tl hj h => hx (h.1 ▸ hj)) (fun j hj h => hx (h ▸ hj))
     · exact ⟨hs, Same.refl P s⟩
+  | copy o kw => exact ⟨hs, Same.refl P s⟩
+
+theorem kwOp_mentions (root : Nat) (kw : Kw) (op : AOp) (h : kwOp root kw = some op) :
+    ∀ i ∈ mentions op, i = root ∨ i ∈ kw.named := by
+  cases kw with
+  | attr ov => cases ov <;> simp [kwOp] at h <;> subst h <;> simp [mentions]
+  | parent p => simp [kwOp] at h; subst h; cases p <;> simp [mentions, Kw.named]
+  | children objs => simp [kwOp] at h; subst h; simp [mentions, Kw.named]
+  | bad => simp [kwOp] at h; subst h; simp [mentions]
+
+/-- one keyword of `copy(**kwargs)` that names no object of `P`, applied to an object outside `P` -/
+theorem kwStep_sep {P} (root : Nat) (r : AForest × Bool) (hs : Sep P r.1) (kw : Kw) (hroot : ¬ P root)
+    (hn : ∀ i ∈ kw.named, ¬ P i) : Sep P (kwStep root r kw).1 ∧ Same P r.1 (kwStep root r kw).1 := by
+  unfold kwStep
+  split
+  · cases hk : kwOp root kw with
+    | none => exact ⟨hs, Same.refl P _⟩
+    | some op =>
+      simp only
+      refine stepBase_sep r.1 hs op (fun i hi => ?_)
+      rcases kwOp_mentions root kw op hk i hi with rfl | h
+      · exact hroot
+      · exact hn i h
+  · exact ⟨hs, Same.refl P _⟩
+
+theorem foldl_kwStep_sep {P} (root : Nat) (hroot : ¬ P root) :
+    ∀ (kws : List Kw) (r : AForest × Bool), Sep P r.1 → (∀ kw ∈ kws, ∀ i ∈ kw.named, ¬ P i) →
+      Sep P (kws.foldl (kwStep root) r).1 ∧ Same P r.1 (kws.foldl (kwStep root) r).1 := by
+  intro kws
+  induction kws with
+  | nil => intro r hs _; exact ⟨hs, Same.refl P _⟩
+  | cons kw kws ih =>
+    intro r hs hn
+    obtain ⟨a1, a2⟩ := kwStep_sep root r hs kw hroot (hn kw (by simp))
+    obtain ⟨b1, b2⟩ := ih _ a1 (fun kw' h => hn kw' (by simp [h]))
+    exact ⟨b1, a2.trans b2⟩
+
+theorem copyKw_nil (s : AForest) (o : Nat) : s.copyKw o [] = labelStep s (s.copy0 o) o := by
+  unfold copyKw; simp [styleKw, SData.nonempty, SData.empty]
+
+/-- `copy(**kwargs)`, any keywords, of an object outside `P`, naming no object of `P` — also when it raises -/
+theorem copyKwG_sep {P} (s : AForest) (hs : Sep P s) (o : Nat) (kws : List Kw) (ho : o < s.f.n) (hoP : ¬ P o)
+    (hn : ∀ kw ∈ kws, ∀ i ∈ kw.named, ¬ P i) :
+    Sep P (s.copyKwG o kws).1 ∧ Same P s (s.copyKwG o kws).1 := by
+  obtain ⟨a1, a2⟩ := copyKw_sep s hs o [] ho hoP
+  rw [copyKw_nil] at a1 a2
+  have hroot : ¬ P s.f.n := fun h => by have := hs.lt _ h; omega
+  obtain ⟨b1, b2⟩ := foldl_kwStep_sep s.f.n hroot kws (labelStep s (s.copy0 o) o, true) a1 hn
+  unfold copyKwG
+  simp only
+  split
+  · have hlt : s.f.n < (kws.foldl (kwStep s.f.n) (labelStep s (s.copy0 o) o, true)).1.f.n := by
+      refine lt_of_lt_of_le ?_ b2.keeps.n_le
+      show s.f.n < (labelStep s (s.copy0 o) o).f.n
+      rw [labelStep_f s o hs.wf ho]; exact (root_new s o).2
+    obtain ⟨c1, c2⟩ := sep_of_step (P' := StyleP s.f.n) (M' := (· ≠ s.f.n)) b1
+      (setStyle_spec _ s.f.n (fun d => d.update (styleKw (attrs kws))) b1.wf hlt).1
+      (fun j tl hj h => hroot (h.1 ▸ hj)) (fun j hj h => hroot (h ▸ hj))
+    exact ⟨c1, (a2.trans b2).trans c2⟩
+  · exact ⟨b1, a2.trans b2⟩
+
+/-- one operation that names no object of `P` -/
+theorem step_sep {P} (s : AForest) (hs : Sep P s) (op : AOp) (hm : ∀ i ∈ mentions op, ¬ P i) :
+    Sep P (s.step op).1 ∧ Same P s (s.step op).1 := by
+  cases op with
   | copy o kw =>
-    have hx := hm o (by simp [mentions])
     simp only [step]
     split
-    · rename_i hlt; exact copyKw_sep s hs o kw hlt hx
+    · rename_i hlt
+      refine copyKwG_sep s hs o kw hlt (hm o (by simp [mentions])) (fun k hk i hi => hm i ?_)
+      simp only [mentions, List.mem_cons, List.mem_flatMap]
+      exact Or.inr ⟨k, hk, hi⟩
     · exact ⟨hs, Same.refl P s⟩
+  | _ => exact stepBase_sep s hs _ hm
 
 /-- run a history -/
 def run (ops : List AOp) (s : AForest) : AForest := ops.foldl (fun s op => (s.step op).1) s
